@@ -6,5 +6,5 @@ CONSTANTS
   DefectC18 = FALSE
   DefectC19 = FALSE
   AtomicWrite = TRUE
-INVARIANTS Report OldOrNew
+INVARIANTS Report
 CHECK_DEADLOCK FALSE
